@@ -59,6 +59,17 @@ CHECKS = {
         note=TRUST + "translators ladder.py/locales.py trusted (fail-closed); floats, urllib quoting, non-ASCII case mapping "
              "not modelled; negative operands of mod and inexact division are outside the reference evaluator.",
         ref="DESIGN.md section 4 C18"),
+    "C04": dict(
+        technique="Coq model of the expander on encoded text + clause theorems; output correspondence and reference-semantics oracle",
+        text="Model/Expand.v transcribes expand_args/expand_recurse/argument binding/#if/#ifeq/#switch/add_newline/finalize on "
+             "the cookie representation and is compared, output for output, with Wtp.expand on generated acyclic libraries and "
+             "pages (the encoded ASTs are read back from the implementation's cookie table). Proved for all inputs: the argument "
+             "map is last-binding-wins, plain text is unchanged by both passes and finalisation, the automatic newline rule. "
+             "PARTIAL: equality with the independent MediaWiki reference semantics is decided per run by harness/gen_wt.py:Ref, "
+             "not by a refinement theorem; _template_to_body is exercised through include wrappers, not modelled.",
+        note=TRUST + "regex-based _encode/preprocess_text/_template_to_body are glue under the diff; ASCII whitespace; "
+             "parser function name table regenerated from the live module.",
+        ref="DESIGN.md section 4 C04"),
 }
 
 NOT_YET = "check not built yet in this round (planned, see DESIGN.md section 8)"
